@@ -364,10 +364,11 @@ def precession_d_tau_g(tau, g):
 # Relaxation
 def relaxation_d_tau(tau, T1, T2, g=0):
     tau, T1, T2, g = common.expand_arrays(tau, T1, T2, g, append=True)
-    rT = tau * (1 / T2 + 2j * np.pi * g)
+    rate = 1 / T2 + 2j * np.pi * g
+    rT = tau * rate
     rL = tau / T1
     mat, mat0 = evolution_operator(rT, rL, rL)
-    mat[..., 1] *= -rT / tau
+    mat[..., 1] *= -rate
     mat[..., 0] = mat[..., 1].conj()
     mat[..., 2] *= -1 / T1
     mat0[..., 2] = -mat[..., 2]
@@ -409,10 +410,11 @@ def relaxation_d_g(tau, T1, T2, g=0):
 
 def relaxation_d2_tau(tau, T1, T2, g=0):
     tau, T1, T2, g = common.expand_arrays(tau, T1, T2, g, append=True)
-    rT = tau * (1 / T2 + 2j * np.pi * g)
+    rate = 1 / T2 + 2j * np.pi * g
+    rT = tau * rate
     rL = tau / T1
     mat, mat0 = evolution_operator(rT, rL, rL)
-    mat[..., 1] *= (rT / tau) ** 2
+    mat[..., 1] *= rate**2
     mat[..., 0] = mat[..., 1].conj()
     mat[..., 2] *= 1 / T1**2
     mat0[..., 2] = -mat[..., 2]
